@@ -17,8 +17,10 @@ Reading.
 * time signatures under `time_sig_change`: the policy rewrites signatures by design; the oracle demands that
   at the start of every measure the signature in force in the file is the measure's own length (when that is a
   whole number of beats) if the measure is irregular, and the score's signature in force otherwise.  An
-  irregular measure whose length is not a whole number of beats is written in a finer beat type (fix C04-9;
-  truncated when the length is not dyadic): at its start only a non-zero numerator is demanded.
+  irregular measure whose length is not a whole number of beats is written in a finer beat type (fix C04-9): when
+  halving the beat down to /128 makes the count whole, the signature in force at its start states the measure's
+  length (any beat type; fix C04-10); when it does not, the count is truncated by design and only a non-zero numerator
+  is demanded.
 * raw MIDI files (not written by partitura) exercise the two readers: on well-formed ones (per channel and
   pitch a chain of notes that at most touch, note offs partly written as zero-velocity note ons) the notes read
   must be the notes written; on arbitrary ones only model and reader are compared.
@@ -1676,8 +1678,11 @@ def gen_reject_case(rng):
 # ====================================================================== one score object: read, edit, export again
 def desc_apply(sd, op):
     """the description after an edit, by the documented meaning of the call (independent of the code):
-    ["Q", part, t, q]  Part.set_quarter_duration(t, q): q divisions per quarter from t until the next change; a value
-                       stored at t is replaced; time points do not move, only their relation to musical time
+    ["Q", part, t, q]  Part.set_quarter_duration(t, q): q divisions per quarter from t until the next STORED quarter
+                       duration; a value stored at t is replaced; a call that repeats the value in force just before t
+                       (and finds nothing stored at t) stores nothing - so a later call at an earlier time runs up to the
+                       next stored entry, not up to t (the reading under which the code is right: "add quarter duration at
+                       time t, unless it is redundant"); time points do not move, only their relation to musical time
     ["A", part, note]  Part.add(Note, t, t + dur)      ["X", part, id]  Part.remove(note)
     ["T", part, t, beats, beat_type]  the TimeSignature at t (if any) is removed and another one is added there"""
     import copy
@@ -1685,10 +1690,17 @@ def desc_apply(sd, op):
     sd = copy.deepcopy(sd)
     pd = sd["parts"][op[1]]
     if op[0] == "Q":
-        tbl = dict(qd_table(pd))
-        tbl[op[2]] = op[3]
-        pd["divs"] = tbl.pop(0)
-        pd["qd"] = [[t, q] for t, q in sorted(tbl.items())]
+        # the table of STORED quarter durations: a value stored at t is replaced; otherwise the call stores (t, q) unless
+        # q is already in force just before t ("add quarter duration at time t, unless it is redundant"), and the value
+        # holds until the next stored entry
+        tbl = [list(x) for x in qd_table(pd)]
+        at = [x for x in tbl if x[0] == op[2]]
+        if at:
+            at[0][1] = op[3]
+        elif [x for x in tbl if x[0] < op[2]][-1][1] != op[3]:
+            tbl = sorted(tbl + [[op[2], op[3]]])
+        pd["divs"] = tbl[0][1]
+        pd["qd"] = [[t, q] for t, q in tbl[1:]]
     elif op[0] == "A":
         pd["notes"].append(dict(op[2]))
         pd["notes"].sort(key=lambda n: n["t"])
@@ -2028,14 +2040,24 @@ def oracle(sd, order, cfg, mf, tracks, pnotes, sc2, tag):
                     if ts is None:
                         continue
                     nb = beat_dur(pd, s, e)
-                    if nb != ts[0] and nb.denominator != 1:
-                        continue  # documented TODO: length not a whole number of beats
-                    exp = (int(nb), ts[1]) if nb != ts[0] else ts
                     tk = tick_of(pd, s)
                     inforce = None
                     for (t, b, bt) in sigs:
                         if t <= tk:
                             inforce = (b, bt)
+                    if nb != ts[0] and nb.denominator != 1:
+                        # length not a whole number of beats: when halving the beat (down to /128) makes it whole, the
+                        # signature in force states the measure's length (whatever beat type it is written in); when it
+                        # does not, the count is truncated by design (only a non-zero numerator is demanded)
+                        k, kbt = nb, ts[1]
+                        while k.denominator != 1 and kbt < 128:
+                            k, kbt = 2 * k, 2 * kbt
+                        if k.denominator == 1 and (inforce is None or inforce[0] == 0 or Fraction(inforce[0], inforce[1]) != Fraction(nb) / ts[1]):
+                            out.append("timesig(file,tsc): [%s] part %d measure at division %d lasts %s beats of 1/%d (= %d/%d): in force in "
+                                       "track %d at tick %s is %r" % (tag, pi, s, nb, ts[1], int(k), kbt, trk, tk, inforce))
+                            break
+                        continue
+                    exp = (int(nb), ts[1]) if nb != ts[0] else ts
                     if inforce != exp:
                         out.append("timesig(file,tsc): [%s] part %d measure at division %d (%s beats, score signature %d/%d): in force in "
                                    "track %d at tick %s is %r, expected %r" % (tag, pi, s, nb, ts[0], ts[1], trk, tk, inforce, exp))
